@@ -45,10 +45,13 @@ ApplyDelta(bc, cw, cd) ==
 \* the logged pointer lies within the running tape (a pointer outside it is never adopted: it is a `bounds` failure)
 LogPcOk(v, ev) == ev.pc >= 0 /\ ev.pc <= Len(TT(v).code)
 
+\* the logged kept-prefix length lies within the stack the specification has (a longer one is a `stack` failure)
+SafeKeep(v, ev) == IF ev.keep <= Len(v.stack) THEN ev.keep ELSE Len(v.stack)
+
 \* the implementation's outcome adopted for one instruction whose data
 \* primitive the harness could not supply (counted as a resync by the driver)
 Adopt(v, ev) ==
-    LET a == [v EXCEPT !.stack = SubSeq(v.stack, 1, ev.keep) \o ev.pushed,
+    LET a == [v EXCEPT !.stack = SubSeq(v.stack, 1, SafeKeep(v, ev)) \o ev.pushed,
                        !.bc = ApplyDelta(v.bc, ev.cw, ev.cd),
                        !.exc = IF ev.exc = "" THEN "none" ELSE ev.exc]
     IN [a EXCEPT !.tapes[Tid(v)].pc = IF LogPcOk(v, ev) THEN ev.pc ELSE TT(v).pc]
@@ -64,7 +67,7 @@ ExcMatch(specExc, logExc) ==
 Failing(v, w, ev) ==
     (IF Len(w.frames) = ev.d THEN {} ELSE {"depth"})
     \cup (IF w.frames = <<>> \/ TT(w).pc = ev.pc THEN {} ELSE {"pc"})
-    \cup (IF w.stack = SubSeq(v.stack, 1, ev.keep) \o ev.pushed THEN {} ELSE {"stack"})
+    \cup (IF ev.keep <= Len(v.stack) /\ w.stack = SubSeq(v.stack, 1, ev.keep) \o ev.pushed THEN {} ELSE {"stack"})
     \cup (IF w.bc = ApplyDelta(v.bc, ev.cw, ev.cd) THEN {} ELSE {"cache"})
     \cup (IF w.ret = ev.ret THEN {} ELSE {"returned"})
     \cup (IF ExcMatch(w.exc, ev.exc) THEN {} ELSE {"exc"})
